@@ -137,6 +137,12 @@ func exprName(e ast.Expr) string {
 		return exprName(x.Fun) + "()"
 	case *ast.ParenExpr:
 		return exprName(x.X)
+	case *ast.MapType:
+		return "map[" + exprName(x.Key) + "]" + exprName(x.Value)
+	case *ast.ArrayType:
+		if x.Len == nil {
+			return "[]" + exprName(x.Elt)
+		}
 	}
 	return "?"
 }
